@@ -27,7 +27,7 @@ VENV_PY = "/venv/bin/python"
 # harness-side API
 
 def prove(name, goal, expect="proved", replay=None, note=None, kind="post", steps=None, timeout=None,
-          samples=None, strong_neg=None):
+          samples=None, strong_neg=None, optional=False):
     """strong_neg: optional formula implying the negation of the goal with a margin; when the
     goal is refuted the model shown to the replay is taken from it if it is satisfiable too
     (solvers like to return boundary models that float rounding cannot reproduce)"""
@@ -36,7 +36,8 @@ def prove(name, goal, expect="proved", replay=None, note=None, kind="post", step
         samples = s.ghost.get("default_samples")
     ob = Obligation(name, kind, goal, list(s.facts), list(s.pc),
                     {"expect": expect, "replay": replay, "note": note, "watches": list(s.watches),
-                     "steps": steps, "timeout": timeout, "samples": samples, "strong_neg": strong_neg})
+                     "steps": steps, "timeout": timeout, "samples": samples, "strong_neg": strong_neg,
+                     "optional": optional})
     deps = s.ghost.get("active_hints")
     if deps and expect == "proved":
         ob.meta["hint_obs"] = list(deps)
@@ -266,6 +267,10 @@ class Check:
                                     "smt2_head": text[:600]})
             elif r["status"] == "refuted":
                 violations.append((name, ob, names, r))
+            elif m.get("optional"):
+                # an attempted obligation beyond the claimed level: left open by the solvers -> recorded, not counted
+                n_expected -= 1
+                self.notes.append("attempted, not discharged (not counted): %s" % name)
             elif m.get("samples") or m.get("replay"):
                 tiebreak.append((name, ob, names, r))
             else:
